@@ -783,10 +783,32 @@ def note_mod_rules(repo: Repo, rep, P: str):
     in_range = guards.facts_text("self.module_index is not None and self.module_index < len(self.project.modules)")
     out_atoms = ["self.module_index is None", "self.module_index >= len(self.project.modules)"]
     out_range = {guards.canon_text(a) for a in out_atoms} | {guards.nnf(ast.parse(" or ".join(out_atoms), mode="eval").body)}
+    from ..packed import resolve_names as _rn
+
+    def _simple(e: ast.expr) -> bool:
+        """names, attribute chains, constants and subscripts of these: values that can be written at their use"""
+        return all(isinstance(x, (ast.Name, ast.Attribute, ast.Constant, ast.Subscript, ast.Load)) for x in ast.walk(e))
     for path in paths or []:
-        known = _facts(_path_tests(g, path))
-        rets = [g.nodes[nid].ast for nid, _ in path if g.nodes[nid].kind == "stmt" and isinstance(g.nodes[nid].ast, ast.Return)]
-        val = rets[-1].value if rets else None
+        # locals along this path (`index = self.module_index`, `found = modules[index]`) are read as what they name
+        env_: Dict[str, ast.expr] = {}
+        tests_: List[Tuple[str, str]] = []
+        val = None
+        has_ret = False
+        for nid, lab in path:
+            nn = g.nodes[nid]
+            if nn.kind == "test":
+                tests_.append((norm(_rn(nn.ast, env_)), lab))
+            elif nn.kind == "stmt" and isinstance(nn.ast, ast.Assign) and len(nn.ast.targets) == 1 and isinstance(nn.ast.targets[0], ast.Name):
+                v_ = _rn(nn.ast.value, env_)
+                if _simple(v_):
+                    env_[nn.ast.targets[0].id] = v_
+                else:
+                    env_.pop(nn.ast.targets[0].id, None)
+            elif nn.kind == "stmt" and isinstance(nn.ast, ast.Return):
+                has_ret = True
+                val = _rn(nn.ast.value, env_) if nn.ast.value is not None else None
+        known = _facts(tests_)
+        rets = [1] if has_ret else []
         if isinstance(val, ast.Subscript):
             if norm(val.value) != "self.project.modules" or norm(val.slice) != "self.module_index":
                 bad.append((norm(val), "looks up something other than project.modules[module_index]"))
